@@ -1,6 +1,6 @@
 #!/bin/bash
 # tools/reeval_all.sh [name ...] — re-runs the quick check of every stored seeded change (seeded/<name>/patch.diff)
-# against the current machinery and the current /repo; writes seeded/reeval_results.json and prints one line each.
+# against the current machinery and the current /repo; updates seeded/reeval_results.json (entries of the names run) and prints one line each.
 cd /verif
 names=("$@"); [ ${#names[@]} -eq 0 ] && names=($(ls seeded | grep -E '^C[0-9]{2}[a-z]?$'))
 res=target/reeval.tmp; : > $res
@@ -19,10 +19,12 @@ for name in "${names[@]}"; do
 done
 python3 - <<'PY'
 import json
-r={}
+import os
+r=json.load(open('/verif/seeded/reeval_results.json')) if os.path.exists('/verif/seeded/reeval_results.json') else {}
 for l in open('/verif/target/reeval.tmp'):
     p=l.split(None,3)
     r[p[0]]={'property':p[1],'result':p[2],'first_violation':p[3].strip() if len(p)>3 else ''}
 json.dump(r,open('/verif/seeded/reeval_results.json','w'),indent=1)
-print(sum(1 for v in r.values() if v['result']=='exit=1'),'of',len(r),'detected by their own property check')
+n=[v for k,v in r.items() if k!='_meta']
+print(sum(1 for v in n if v.get('result')=='exit=1'),'of',len(n),'entries detected by their own property check')
 PY
